@@ -8,8 +8,15 @@ P("C30",
             "descent of the computed distance along next hops; dimension-order descent for the mesh) + exact model/impl "
             "correspondence: real networks are built with the generic and mesh connectors, the real routing tables are read "
             "through routing.Table.FindPort and walked hop by hop over the wiring read back from the switches' port complexes",
-  level_text="under construction",
-  level_note="under construction",
+  level_text="Theorems: c30_fw_is_functional (the in-place triple loop = the functional recurrence; panics iff some node has no remote), "
+             "c30_fw_shortest (for EVERY finite graph the computed distance is the length of a shortest walk, 2n with a nil next hop iff unreachable), "
+             "c30_next_hop_descends (next hop = neighbour through the recorded port, exactly one step closer), c30_route_loop_free_shortest "
+             "(following the tables reaches every reachable node in dist hops, never repeating a node, and no walk is shorter), c30_mesh_manhattan "
+             "(dimension-order routing stays in the grid and arrives after exactly Manhattan-distance hops), c30_reuse_equals_fresh (after fix 45fd431d a "
+             "reused connector computes the routes of a fresh one, for every history), c30_reuse_old_refuted (pre-fix regression). The model is compared "
+             "with the real routing tables, the real wiring and real hop-by-hop walks on every run.",
+  level_note="Trusted: Coq kernel + vm_compute; the Go harness (builds real networks with the generic and mesh connectors, reads "
+             "routing.Table.FindPort and State.PortComplexes back); the hand-written model of floydwarshall.go / connector.go / mesh_routing_table.go.",
   assumptions=["distances are Go uint32; the model uses unbounded naturals (no wrap below 2^29 nodes)",
                "a Go panic (index out of range, nil dereference) is the outcome None"],
   trusted=["modelled, not verified: networkconnector/floydwarshall.go, connector.go (node lists, NewNetwork, remote lists), "
